@@ -3,12 +3,13 @@
 # usage: import_mutants.sh C01 C02 ...   (reads /tmp/mut-<id>-out/{a,b})
 set -u
 export CARGO_NET_OFFLINE=true
-WT=/tmp/mutcheck-wt
+SFX=${MUTCHECK_SUFFIX:-}
+WT=/tmp/mutcheck-wt$SFX
 LOG=/tmp/mutcheck.log
 git -C /repo worktree remove --force $WT 2>/dev/null
 git -C /repo worktree add -q --detach $WT HEAD || exit 1
 cp /repo/Cargo.lock $WT/Cargo.lock 2>/dev/null   # not tracked; some demonstrations pin versions with it
-export CARGO_TARGET_DIR=/tmp/mutcheck-target
+export CARGO_TARGET_DIR=/tmp/mutcheck-target$SFX
 for id in "$@"; do
   for v in a b; do
     src=/tmp/mut-$id-out/$v
@@ -60,5 +61,5 @@ PY
   done
 done
 git -C /repo worktree remove --force $WT
-rm -rf /tmp/mutcheck-target
+rm -rf /tmp/mutcheck-target$SFX
 echo "import done" | tee -a $LOG
